@@ -98,8 +98,14 @@ func zzStubRetryCall(m *bigmachine.Machine, ctx context.Context, method string, 
 		zzRunCalls++
 		return zzRunErr
 	}
+	if method == "Worker.Discard" {
+		return zzDiscardErr
+	}
 	return nil
 }
+
+// zzDiscardErr is what the Worker.Discard RPC returns.
+var zzDiscardErr error
 
 func zzStubUpdateStatus(s *sliceMachine) {}
 
